@@ -17,7 +17,8 @@ func tlcpCert(l *pki.Leaf) *tlcp.Certificate {
 }
 
 // client configuration from the abstract description
-func (tlcpStack) client(c cliCfg) *tlcp.Config {
+// (cache: the session cache the configuration refers to; nil = a fresh one when c.cache)
+func (tlcpStack) client(c cliCfg, cache tlcp.SessionCache) *tlcp.Config {
 	s := pki.Std()
 	cfg := &tlcp.Config{RootCAs: s.Root.Pool, ServerName: c.sname, Time: pki.NowFn,
 		NextProtos: c.alpn, MinVersion: c.vmin, MaxVersion: c.vmax}
@@ -38,12 +39,15 @@ func (tlcpStack) client(c cliCfg) *tlcp.Config {
 		cfg.GetClientKECertificate = func(*tlcp.CertificateRequestInfo) (*tlcp.Certificate, error) { return tlcpCert(enc), nil }
 	}
 	if c.cache {
-		cfg.SessionCache = tlcp.NewLRUSessionCache(0)
+		if cache == nil {
+			cache = tlcp.NewLRUSessionCache(0)
+		}
+		cfg.SessionCache = cache
 	}
 	return cfg
 }
 
-func (tlcpStack) server(c srvCfg) *tlcp.Config {
+func (tlcpStack) server(c srvCfg, cache tlcp.SessionCache) *tlcp.Config {
 	cfg := &tlcp.Config{Time: pki.NowFn, NextProtos: c.alpn, MinVersion: c.vmin, MaxVersion: c.vmax,
 		ClientAuth: tlcp.ClientAuthType(c.auth), ClientCAs: caPool(c.cas)}
 	if !c.suitesNil {
@@ -63,7 +67,10 @@ func (tlcpStack) server(c srvCfg) *tlcp.Config {
 		cfg.GetKECertificate = func(*tlcp.ClientHelloInfo) (*tlcp.Certificate, error) { return tlcpCert(enc), nil }
 	}
 	if c.cache {
-		cfg.SessionCache = tlcp.NewLRUSessionCache(0)
+		if cache == nil {
+			cache = tlcp.NewLRUSessionCache(0)
+		}
+		cfg.SessionCache = cache
 	}
 	return cfg
 }
@@ -81,13 +88,34 @@ func tlcpState(c *tlcp.Conn, err error, peer [2]*pki.Leaf) endState {
 	return es
 }
 
+// connect runs one handshake (and, when both ends succeed, the echo) between the two
+// configurations over a fresh transport and returns what both ends report.
+func (st tlcpStack) connect(cu, su *tlcp.Config, cc cliCfg, sc srvCfg) hsResult {
+	cliSig, cliEnc := cliLeaves(cc.fam)
+	srvSig, srvEnc := srvLeaves(sc.sigKind, sc.encKind)
+	ce, se := pair.StreamPipe()
+	c := tlcp.Client(ce, cu)
+	s := tlcp.Server(se, su)
+	cerr, serr, cHung, sHung := runBoth(c.Handshake, s.Handshake, func() { ce.Close() }, func() { se.Close() }, 10*time.Second)
+	res := hsResult{cHung: cHung, sHung: sHung}
+	res.c = tlcpState(c, cerr, [2]*pki.Leaf{srvSig, srvEnc})
+	res.s = tlcpState(s, serr, [2]*pki.Leaf{cliSig, cliEnc})
+	if res.c.ok && res.s.ok {
+		dl := time.Now().Add(5 * time.Second)
+		ce.SetReadDeadline(dl)
+		se.SetReadDeadline(dl)
+		res.echo = echo(c, s)
+	}
+	ce.Close()
+	se.Close()
+	return res
+}
+
 // run performs `rounds` consecutive handshakes between the two abstract configurations
 // (each over a fresh transport, same Config objects or fresh clones of them) and returns
 // what both ends report.
 func (st tlcpStack) run(cc cliCfg, sc srvCfg, rounds int) []hsResult {
-	ccfg, scfg := st.client(cc), st.server(sc)
-	cliSig, cliEnc := cliLeaves(cc.fam)
-	srvSig, srvEnc := srvLeaves(sc.sigKind, sc.encKind)
+	ccfg, scfg := st.client(cc, nil), st.server(sc, nil)
 	var out []hsResult
 	for r := 0; r < rounds; r++ {
 		cu, su := ccfg, scfg
@@ -97,23 +125,46 @@ func (st tlcpStack) run(cc cliCfg, sc srvCfg, rounds int) []hsResult {
 		if sc.clone {
 			su = scfg.Clone()
 		}
-		ce, se := pair.StreamPipe()
-		c := tlcp.Client(ce, cu)
-		s := tlcp.Server(se, su)
-		cerr, serr, cHung, sHung := runBoth(c.Handshake, s.Handshake, func() { ce.Close() }, func() { se.Close() }, 10*time.Second)
-		res := hsResult{cHung: cHung, sHung: sHung}
-		res.c = tlcpState(c, cerr, [2]*pki.Leaf{srvSig, srvEnc})
-		res.s = tlcpState(s, serr, [2]*pki.Leaf{cliSig, cliEnc})
-		if res.c.ok && res.s.ok {
-			dl := time.Now().Add(5 * time.Second)
-			ce.SetReadDeadline(dl)
-			se.SetReadDeadline(dl)
-			res.echo = echo(c, s)
-		}
-		ce.Close()
-		se.Close()
+		res := st.connect(cu, su, cc, sc)
 		out = append(out, res)
 		if !(res.c.ok && res.s.ok) {
+			break
+		}
+	}
+	return out
+}
+
+// runHist performs a history: one connection per step between the same two parties. The
+// client configurations share ONE client session cache and the server configurations that
+// have a cache share ONE server session cache (what Clone(), GetConfigForClient or a
+// reloaded configuration built around the same cache do); steps with the same settings use
+// the same Config object. The history goes on after a failed connection (that is when the
+// client must forget the session) and stops only when an end had to be aborted.
+func (st tlcpStack) runHist(steps []histStep) []hsResult {
+	ccache, scache := tlcp.NewLRUSessionCache(0), tlcp.NewLRUSessionCache(0)
+	ccfgs, scfgs := map[string]*tlcp.Config{}, map[string]*tlcp.Config{}
+	var out []hsResult
+	for _, h := range steps {
+		ccfg, ok := ccfgs[h.ckey]
+		if !ok {
+			ccfg = st.client(h.cc, ccache)
+			ccfgs[h.ckey] = ccfg
+		}
+		scfg, ok := scfgs[h.skey]
+		if !ok {
+			scfg = st.server(h.sc, scache)
+			scfgs[h.skey] = scfg
+		}
+		cu, su := ccfg, scfg
+		if h.cc.clone {
+			cu = ccfg.Clone()
+		}
+		if h.sc.clone {
+			su = scfg.Clone()
+		}
+		res := st.connect(cu, su, h.cc, h.sc)
+		out = append(out, res)
+		if res.cHung || res.sHung {
 			break
 		}
 	}
